@@ -1,5 +1,6 @@
 import TypifyModel.Proofs.Lemmas.RoundTripMain
 import TypifyModel.Proofs.Lemmas.SortedKv
+import TypifyModel.Proofs.Lemmas.RoundTripFlat
 import TypifyModel.Proofs.Lemmas.RoundTripEnum
 /-! # C03 — round trip: the re-serialized value reads back as the same value (hence a fixed point)
 
@@ -29,7 +30,7 @@ def Art (f : Nat) : Prop := ∀ t ∈ S, RTat x σ f t
 
 def Srt (f : Nat) : Prop :=
   ∀ (ps : List Field) (deny : Bool) (v : Json) (fs : List (String × Val)) (es : List (String × Json)),
-    (∀ p ∈ ps, p.ty ∈ S) → fieldsOkB σ ps = true →
+    (∀ p ∈ ps, p.ty ∈ S) → (fieldsOkB σ ps || fieldsOkFlatB σ ps) = true →
     deStruct x σ f ps deny v = .ok (.struct fs) → seStruct σ f ps fs = .ok es →
     deStruct x σ f ps deny (.obj es) = .ok (.struct fs)
 
@@ -53,7 +54,10 @@ def Vrt (f : Nat) : Prop :=
 
 theorem srt_step {f : Nat} (hA : Art x σ S f) : Srt x σ S (f + 1) := by
   intro ps deny v fs es hin hok h1 h2
-  exact struct_rt x σ (fun p hp => hA p.ty (hin p hp)) hok h1 h2
+  simp only [Bool.or_eq_true] at hok
+  rcases hok with hok | hok
+  · exact struct_rt x σ (fun p hp => hA p.ty (hin p hp)) hok h1 h2
+  · exact struct_rt_flat x σ (fun p hp => hA p.ty (hin p hp)) hok h1 h2
 
 theorem deStruct_shape {f : Nat} {ps : List Field} {deny : Bool} {v : Json} {p : Val}
     (h : deStruct x σ f ps deny v = .ok p) : ∃ fs, p = .struct fs := by
@@ -130,7 +134,8 @@ theorem vrt_step {f : Nat} (hA : Art x σ S f) (hS : Srt x σ S f) : Vrt x σ S 
     | ok es =>
       rw [hs] at h2
       simp only [Except.ok.injEq] at h2; subst h2
-      have := hS ps deny v fs es (fun q hq => hin q.ty (by simp [idsOfD, fieldIds]; exact ⟨q, hq, rfl⟩)) hok hds hs
+      have := hS ps deny v fs es (fun q hq => hin q.ty (by simp [idsOfD, fieldIds]; exact ⟨q, hq, rfl⟩))
+        (by simp only [detailsOk] at hok; simp [hok]) hds hs
       simp only [deVariantBody]
       cases sq' <;> exact this
 
@@ -629,7 +634,9 @@ theorem art_step (hcl : closedOkB σ S = true) {f : Nat} (hA : Art x σ S f) (hS
                         simp only [Json.erase, List.filter, ne_eq, not_true_eq_false, decide_false]
                         exact erase_id hkeys
                       rw [herase]
-                      rw [hS ps deny _ fs es (fun q hq => hin q.ty (by simp [idsOfD, fieldIds]; exact ⟨q, hq, rfl⟩)) hdo hds hs]
+                      rw [hS ps deny _ fs es (fun q hq => hin q.ty (by simp [idsOfD, fieldIds]; exact ⟨q, hq, rfl⟩))
+                        (by have h' : fieldsOkB σ ps = true := hdo
+                            simp [h']) hds hs]
                 | item t' => simp [variantOkB] at hvo
                 | tuple ts => simp [variantOkB] at hvo
             | _ => simp at h1
